@@ -65,7 +65,8 @@ def auto_detect_output(prg: Iterable[AST]) -> list[Predicate]:
     output: set[Predicate] = set()
     for stm in prg:
         if stm.ast_type == ASTType.ShowSignature:
-            output.add(Predicate(stm.name, stm.arity))
+            if stm.name:  # `#show.` names no predicate
+                output.add(Predicate(stm.name, stm.arity))
         elif stm.ast_type == ASTType.ShowTerm:
             for lit in stm.body:
                 output.update([p.pred for p in predicates(lit)])
